@@ -384,7 +384,7 @@ def gen_floor(rng, idx, big=False, groups=True, congested=False, serial=False):
                         kw['recvcb'] = ','.join(_cb(rng) for _ in range(rng.choice([1, 1, 2])))
                 if kind == 'processor':
                     kw.update(nshut=rng.choice([0, 1, 2]), nrest=rng.choice([0, 1]))
-                    if npools and rng.random() < (0.7 if congested else 0.4):
+                    if npools and not serial and rng.random() < (0.7 if congested else 0.4):
                         kw['res'] = ';'.join(f'{r}:{rng.choice([0, 1, 1, 2])}' for r in rng.sample(range(npools), rng.randint(1, npools)))
                     if not serial and rng.random() < 0.2:
                         kw['fincb'] = _cb(rng)
